@@ -13,4 +13,4 @@ Extraction "model.ml" Bytes.takeN Bytes.write_at Bytes.zerosN
   Log.log_range Log.log_last_position Log.log_last_record Log.log_memory_used Log.log_disk_used
   Log.step Log.open
   Driver.world_init Driver.world_step Driver.mem_roundtrip Driver.replay_events
-  Driver.crash_events Driver.power_events.
+  Driver.crash_events Driver.power_events Driver.world_digest.
